@@ -365,9 +365,10 @@ def _tracker(ctx) -> None:
             problems.append(f"the list receiving the new reference (`{short(lst)}`) is not the one stored under the id")
     dup_guard = False
     for s in walk_stmts(f.body):
-        if isinstance(s, ast.For):
+        if isinstance(s, ast.For) and isinstance(s.target, ast.Name):
+            r = s.target.id
             for x in walk_stmts(s.body):
-                if isinstance(x, ast.If) and short(x.test) in (f"r() is {vec}", f"{vec} is r()") \
+                if isinstance(x, ast.If) and short(x.test) in (f"{r}() is {vec}", f"{vec} is {r}()") \
                         and any(isinstance(b, ast.Return) for b in x.body):
                     dup_guard = True
     if not dup_guard:
@@ -388,8 +389,12 @@ def _tracker(ctx) -> None:
         problems.append("unregister: filter loop not recognised")
     else:
         conts = [x for x in walk_stmts(loop[0].body) if isinstance(x, ast.If) and any(isinstance(b, ast.Continue) for b in x.body)]
+        rv = loop[0].target.id if isinstance(loop[0].target, ast.Name) else "?"
+        objs = [s2.targets[0].id for s2 in loop[0].body if isinstance(s2, ast.Assign) and isinstance(s2.targets[0], ast.Name)
+                and short(s2.value) == f"{rv}()"]
+        ov = objs[0] if objs else f"{rv}()"
         tests = sorted(short(x.test) for x in conts)
-        if tests != sorted(["obj is None", f"obj is {vec}"]):
+        if tests != sorted([f"{ov} is None", f"{ov} is {vec}"]):
             problems.append(f"unregister drops references under {tests}, expected exactly the dead ones and the object's own")
     ctx.ob("d.tracker", f, "unregister", not problems, "unregister keeps exactly the other live references", f.node,
            message="; ".join(problems))
